@@ -52,7 +52,17 @@ const noName = "\x00no-name"
 
 // (one endpoint name is the comma-join of two others: names are opaque strings)
 // and one differs from another in letter case only
-var epNames = []string{"e0:443", "e1:443", "e0:443,e1:443", "E0:443", "e4:443"}
+var epNames = func() []string {
+	n := []string{"e0:443", "e1:443", "e0:443,e1:443", "E0:443", "e4:443"}
+	// 5.. are used by "many endpoints" plans only (index e is taken modulo 5 otherwise)
+	for i := 5; i < 24; i++ {
+		n = append(n, fmt.Sprintf("e%d:443", i))
+	}
+	return n
+}()
+
+// epMod: how many of the endpoint names a plan's indexes range over.
+var epMod = 5
 
 type MESpec struct {
 	Name int   `json:"name"`
@@ -107,6 +117,8 @@ type Plan struct {
 	// SlowDial: the n-th dial of the run takes SlowMs of simulated time
 	SlowDial int `json:"slow_dial,omitempty"`
 	SlowMs   int `json:"slow_ms,omitempty"`
+	// ManyEps: MultiEndpoints over up to 24 endpoints (updates that dial a dozen pools)
+	ManyEps bool `json:"many_eps,omitempty"`
 	// OwnerClose: before Close() the application closes some pool connections itself
 	OwnerClose bool `json:"owner_close,omitempty"`
 }
@@ -167,6 +179,7 @@ func Generate(r *rand.Rand, profile string, concurrent bool, avoid map[string]bo
 	}
 	p.Shared = !p.Alias && r.IntN(4) == 0
 	p.OwnerClose = r.IntN(5) == 0
+	p.ManyEps = !concurrent && r.IntN(10) == 0
 	if !concurrent && r.IntN(8) == 0 {
 		p.SlowDial, p.SlowMs = 1+r.IntN(8), []int{25000, 61000}[r.IntN(2)]
 	}
@@ -221,6 +234,27 @@ func Generate(r *rand.Rand, profile string, concurrent bool, avoid map[string]bo
 		}
 		o.ID = i + 1
 		p.Ops = append(p.Ops, o)
+	}
+	if p.ManyEps {
+		// every option set names many more endpoints (and pool events reach them)
+		widen := func(sp *OptsSpec) {
+			for i := range sp.MEs {
+				k := 6 + r.IntN(10)
+				sp.MEs[i].Eps = r.Perm(24)[:k]
+			}
+			if sp.DialFail > 0 {
+				sp.DialFail = 1 + r.IntN(20)
+			}
+		}
+		widen(&p.Init)
+		for i := range p.Ops {
+			if p.Ops[i].Opts != nil {
+				widen(p.Ops[i].Opts)
+			}
+			if p.Ops[i].K == OpPool {
+				p.Ops[i].A = r.IntN(24)
+			}
+		}
 	}
 	if concurrent {
 		// bursts assume that otherwise valid options are accepted: no negative durations there
@@ -675,7 +709,7 @@ func (s *sim) buildOptsFresh(o OptsSpec) *grpcgcp.GCPMultiEndpointOptions {
 	for i, me := range o.MEs {
 		eps := []string{}
 		for _, e := range me.Eps {
-			eps = append(eps, epNames[e%5])
+			eps = append(eps, epNames[e%epMod])
 		}
 		if o.EmptyME == i+1 {
 			eps = []string{}
@@ -858,6 +892,11 @@ func (s *sim) run(src *simkit.Source, logOn bool) {
 	k.LogOn = logOn
 	k.OpYields = 3000
 	k.MaxSteps = 100000
+	epMod = 5
+	if s.plan.ManyEps {
+		epMod = len(epNames)
+		k.MaxSteps = 400000
+	}
 	if s.plan.Tick {
 		k.TickNs = 1
 	}
@@ -1083,7 +1122,7 @@ func (s *sim) settle(o Op) {
 func (s *sim) endpointsOf(me MESpec) []string {
 	var out []string
 	for _, e := range me.Eps {
-		out = append(out, epNames[e%5])
+		out = append(out, epNames[e%epMod])
 	}
 	return out
 }
@@ -1514,6 +1553,7 @@ func (s *sim) exec(o Op) {
 		if !ok {
 			return
 		}
+		t0 := s.k.Elapsed()
 		dialsBefore := len(s.dialLog)
 		openBefore := map[string]bool{}
 		for _, p := range s.pools {
@@ -1564,6 +1604,20 @@ func (s *sim) exec(o Op) {
 		if err != nil {
 			s.rejected++
 			// rejected: every RPC is routed exactly as before
+			if s.k.Elapsed() != t0 {
+				// the (slow) dials of this update took simulated time: timers of the
+				// configuration in force may have moved routing meanwhile, so each name
+				// is judged against that configuration instead of the old snapshot
+				names := append([]string{noName, "unknown"}, meNames...)
+				sort.Strings(names)
+				for _, n := range names {
+					if p, ok := s.probe(n, false); ok && !s.stop {
+						s.judge(n, p, "after the rejected update whose dials took time", true)
+					}
+				}
+				s.res.Count("probe:rejected_update_routing_judged_after_slow_dial", 1)
+				return
+			}
 			after, ok := s.routingSnapshot()
 			if !ok {
 				return
@@ -1615,7 +1669,7 @@ func (s *sim) exec(o Op) {
 		s.afterUpdate("update")
 		s.twinProbes("after an update of the first instance")
 	case OpPool:
-		ep := epNames[o.A%5]
+		ep := epNames[o.A%epMod]
 		p := s.openPool(ep)
 		if p == nil {
 			return
